@@ -51,6 +51,7 @@ func checkExact(c ExactCase) error {
 	}
 	st := ops.State{T: t}
 	indexed := true
+	var watched []*tree.Tree
 	for i, op := range c.Ops {
 		before := st.T.Newick()
 		obj := st.T
@@ -76,12 +77,22 @@ func checkExact(c ExactCase) error {
 				return fmt.Errorf("step %d (%s) recomputes the indexes itself, but right after it (before any ReinitIndexes) they do not describe the tree: %v\n before %s\n after  %s", i, op.Kind, err, before, st.T.Newick())
 			}
 		}
+		if st.T != obj && indexed && (op.Kind == "clone" || op.Kind == "subtree") {
+			// the history continues on a copy: the indexed source is kept and must stay exact
+			// while its copy is edited and re-indexed
+			watched = append(watched, obj)
+		}
 		indexed = true
 		if err := st.T.ReinitIndexes(); err != nil {
 			return fmt.Errorf("ReinitIndexes after step %d (%s): %v", i, op.Kind, err)
 		}
 		if err := exact(st.T); err != nil {
 			return fmt.Errorf("after step %d (%s) from %s: %v", i, op.Kind, before, err)
+		}
+		for _, w := range watched {
+			if err := exact(w); err != nil {
+				return fmt.Errorf("step %d (%s) on a copy, followed by re-indexing the copy, corrupted the indexes of the source tree %s: %v", i, op.Kind, w.Newick(), err)
+			}
 		}
 	}
 	return nil
